@@ -427,6 +427,10 @@ func (e *SpecEnv) call(x *ast.CallExpr) Term {
 			return Term{S: or(eq(a.S, b.S), fmt.Sprintf("(errwraps %s %s)", a.S, b.S)), T: types.Typ[types.Bool]}
 		case "unfold":
 			return e.unfold(x)
+		case "written", "consumed":
+			// ghost byte counters of a writer / reader
+			a := e.eval(x.Args[0])
+			return Term{S: u.ghostCount(e.curState(), id.Name, a.S), T: types.Typ[types.Int]}
 		case "fsize":
 			// ghost size of the file behind an io.ReaderAt
 			a := e.eval(x.Args[0])
@@ -470,6 +474,24 @@ func (e *SpecEnv) call(x *ast.CallExpr) Term {
 				return e.fail("lemma %s may only be cited in a use clause", id.Name)
 			}
 			return e.applyLemma(lm, x)
+		}
+		// pure repo function
+		if e.pkg != nil {
+			if f, ok := e.pkg.Scope().Lookup(id.Name).(*types.Func); ok {
+				if ct, _ := u.eng.contractFor(f); ct != nil && ct.Pure {
+					sig := f.Type().(*types.Signature)
+					var args []Term
+					for k, a := range x.Args {
+						t := e.eval(a)
+						if k < sig.Params().Len() {
+							t = u.coerceSpec(t, sig.Params().At(k).Type())
+							t.T = sig.Params().At(k).Type()
+						}
+						args = append(args, t)
+					}
+					return u.pureFuncApp(f, args, 0)
+				}
+			}
 		}
 		// conversion to a Go type
 		if t := e.resolveTypeString(id.Name); t != nil && len(x.Args) == 1 {
